@@ -21,25 +21,46 @@ Scale10(n, expo) == IF expo >= 0 THEN ROfBig(BMul(n, BPow10(expo))) ELSE RMake(n
 MaxAge(b) == IF b.cfg.oracle_max_age = 0 /\ b.cfg.oracle_setup = SETUP_PYTH THEN 60 ELSE b.cfg.oracle_max_age
 MaxConfRatio(b) == RMake(IF BIsZero(b.cfg.oracle_max_conf) THEN BOfInt(429496730) ELSE b.cfg.oracle_max_conf, U32MAX)
 
-PresentedOracle(e, bn, b) ==
-  IF Has(e.a, "oracle_sub") /\ Has(e.a.oracle_sub, bn) THEN e.a.oracle_sub[bn] ELSE b.cfg.oracle_keys[1]
+\* the account presented in oracle slot i (1-based) of bank bn: the recorded action may substitute slot 1 by name
+\* (oracle_sub: "bank" -> oracle) or any slot by its 0-based index (oracle_sub_slots: "bank" -> ("0" -> .., "1" -> .., "2" -> ..))
+PresentedSlot(e, bn, b, i) ==
+  IF Has(e.a, "oracle_sub_slots") /\ Has(e.a.oracle_sub_slots, bn) /\ Has(e.a.oracle_sub_slots[bn], ToString(i - 1))
+  THEN e.a.oracle_sub_slots[bn][ToString(i - 1)]
+  ELSE IF i = 1 /\ Has(e.a, "oracle_sub") /\ Has(e.a.oracle_sub, bn) THEN e.a.oracle_sub[bn]
+  ELSE b.cfg.oracle_keys[i]
+PresentedOracle(e, bn, b) == PresentedSlot(e, bn, b, 1)
+
+\* spl-single-pool collateral: SOL price x (delegated stake - 1 SOL) / LST supply, integer arithmetic on the raw Pyth price
+SETUP_STAKED == 5
+LAMPORTS_PER_SOL == BOfInt(1000000000)
+PoolsOf(s) == IF Has(s, "pools") THEN s.pools ELSE <<>>
+PoolFor(s, mint, solpool) == {pn \in DOMAIN PoolsOf(s) : s.pools[pn].mint = mint /\ s.pools[pn].sol_pool = solpool}
 
 \* Price record for bank bn as presented in event e at state s.  ptype in {"RT","TW"}.
 \* usable in {"yes","no","maybe"} ("maybe" = within rounding of the confidence threshold: don't care)
 RefPrice(s, e, bn, ptype) ==
   LET b == s.banks[bn] setup == b.cfg.oracle_setup now == s.clock.ts IN
   IF setup = SETUP_FIXED THEN [usable |-> "yes", known |-> TRUE, p |-> R(b.cfg.fixed_price), ci |-> RZero]
-  ELSE IF setup \notin {SETUP_PYTH, SETUP_SWB} THEN [usable |-> "maybe", known |-> FALSE, p |-> RZero, ci |-> RZero]
+  ELSE IF setup \notin {SETUP_PYTH, SETUP_SWB, SETUP_STAKED} THEN [usable |-> "maybe", known |-> FALSE, p |-> RZero, ci |-> RZero]
   ELSE
-  LET key == b.cfg.oracle_keys[1] pres == PresentedOracle(e, bn, b) IN
-  IF pres # key \/ ~Has(s.oracles, key) THEN [usable |-> "no", known |-> TRUE, p |-> RZero, ci |-> RZero]
+  LET key == b.cfg.oracle_keys[1] pres == PresentedOracle(e, bn, b)
+      staked == setup = SETUP_STAKED
+      pools == IF staked THEN PoolFor(s, b.cfg.oracle_keys[2], b.cfg.oracle_keys[3]) ELSE {}
+      slotsOk == staked => (PresentedSlot(e, bn, b, 2) = b.cfg.oracle_keys[2] /\ PresentedSlot(e, bn, b, 3) = b.cfg.oracle_keys[3])
+  IN
+  IF pres # key \/ ~Has(s.oracles, key) \/ ~slotsOk THEN [usable |-> "no", known |-> TRUE, p |-> RZero, ci |-> RZero]
+  ELSE IF staked /\ pools = {} THEN [usable |-> "maybe", known |-> FALSE, p |-> RZero, ci |-> RZero]
   ELSE
   LET o == s.oracles[key]
-      kindOk == (setup = SETUP_PYTH /\ o.kind = "pyth") \/ (setup = SETUP_SWB /\ o.kind = "swb")
-      authentic == kindOk /\ o.owner_ok /\ o.discr_ok /\ o.live /\ (o.kind = "pyth" => o.verif_ok)
+      pool == IF staked THEN s.pools[CHOOSE pn \in pools : TRUE] ELSE [stake |-> BZero, supply |-> BOne, state |-> "stake"]
+      poolOk == staked => (pool.state = "stake" /\ BIsPos(pool.supply) /\ BGe(pool.stake, LAMPORTS_PER_SOL))
+      \* raw integer price scaled by the pool's exchange rate (truncating division, as the adapter does before anything else)
+      Adj(raw) == IF staked /\ poolOk THEN BFloorDiv(BMul(raw, BSub(pool.stake, LAMPORTS_PER_SOL)), pool.supply) ELSE raw
+      kindOk == (setup \in {SETUP_PYTH, SETUP_STAKED} /\ o.kind = "pyth") \/ (setup = SETUP_SWB /\ o.kind = "swb")
+      authentic == kindOk /\ o.owner_ok /\ o.discr_ok /\ o.live /\ (o.kind = "pyth" => o.verif_ok) /\ poolOk
       age == BSub(now, o.ts)
       fresh == BLe(age, BOfInt(MaxAge(b)))
-      p == IF o.kind = "pyth" THEN Scale10(IF ptype = "RT" THEN o.price ELSE o.ema, o.expo) ELSE RMake(o.swb_value, E18)
+      p == IF o.kind = "pyth" THEN Scale10(Adj(IF ptype = "RT" THEN o.price ELSE o.ema), o.expo) ELSE RMake(o.swb_value, E18)
       c0 == IF o.kind = "pyth" THEN RMul(Scale10(IF ptype = "RT" THEN o.conf ELSE o.ema_conf, o.expo), K_PYTH)
             ELSE RMul(RMake(o.swb_std, E18), K_SWB)
       maxc == RMul(p, MaxConfRatio(b))
